@@ -6,4 +6,9 @@ open Output C19
 theorem preview_ignored_under_json :
     (jsonRows.all fun r => outcome r == outcome { r with preview := !r.preview }) = true := by decide +kernel
 
+theorem table_is_total :
+    (rows.all fun r => (outcome r).isSome) = true
+    ∧ (Cmd.all.all fun c => match emittedDoc c with | some p => (docShape p).isSome | none => false) = true := by
+  decide +kernel
+
 end C19.Part
